@@ -45,6 +45,9 @@ func newSimWorld(sc *Scenario) *simWorld {
 	for _, m := range sc.Rig.CallbackModules {
 		mod := m
 		_ = k.RegisterResponseCallback(m, func(ctx sdk.Context, id tmbytes.HexBytes, outs []string, err error) {
+			if rc, ok := k.GetRequestContext(ctx, id); ok && sc.Rig.ReentrantSelfKill && err != nil {
+				_ = k.KillRequestContext(ctx, id, rc.Consumer)
+			}
 			if sc.Rig.Reentrant && err != nil {
 				var others [][]byte
 				var consumers []sdk.AccAddress
@@ -66,6 +69,11 @@ func newSimWorld(sc *Scenario) *simWorld {
 					_ = k.KillRequestContext(ctx, id, rc.Consumer)
 				}
 			}
+			if sc.Rig.ReentrantRestart {
+				if rc, ok := k.GetRequestContext(ctx, id); ok {
+					_ = k.StartRequestContext(ctx, id, rc.Consumer)
+				}
+			}
 		})
 	}
 	for _, m := range sc.Rig.ResponseOnlyModules {
@@ -80,8 +88,7 @@ func newSimWorld(sc *Scenario) *simWorld {
 	// genesis of the explored world: params, funded accounts
 	k.SetParams(w.ctx, sc.Params.Params())
 	for _, f := range sc.Funds {
-		if f.Amt > 0 {
-			c := sdk.NewCoins(sdk.NewInt64Coin(denom, f.Amt))
+		if c := f.coins(); !c.Empty() {
 			if err := app.BankKeeper.MintCoins(w.ctx, minttypes.ModuleName, c); err != nil {
 				panic(err)
 			}
